@@ -250,7 +250,31 @@ def gen_curve(rng, g, n):
                     lines.append(T + "equals %s %s" % (di, dj)); exp.append("OK " + (OKST if same else NOST))
             out.append(Case(lines, exp, ["batch-injectivity", g.name + ":batch"], "injectivity"))
         else:
-            if g.name == "ristretto255":
+            if g.name in ("ristretto255", "decaf448") and rng.randrange(3) == 0:
+                # directed halves: field elements on which the element-derivation map has exceptional intermediate values
+                # (t = 0, +-1, p-1, values with t^2 = +-i or +-1/d style coincidences, non-canonical representations)
+                p_ = g.p
+                hl = 32 if g.name == "ristretto255" else 56
+                top = 1 << (8 * hl)
+                sq = []
+                for c_ in (1, p_ - 1, 2, p_ - 2, (p_ + 1) // 2, 486662 % p_, 39081 % p_, p_ - 39081, 121665, 121666):
+                    r_ = ref_ed._sqrt_mod(c_, p_) if hasattr(ref_ed, "_sqrt_mod") else None
+                    if r_ is not None:
+                        sq += [r_, p_ - r_]
+                SQRT_M1 = pow(2, (p_ - 1) // 4, p_) if p_ % 4 == 1 else None
+                if SQRT_M1:
+                    for c_ in (SQRT_M1, p_ - SQRT_M1):
+                        r_ = ref_ed._sqrt_mod(c_, p_)
+                        if r_ is not None:
+                            sq += [r_, p_ - r_]
+                        sq += [c_]
+                pool = [0, 1, 2, p_ - 1, p_ - 2, p_, p_ + 1, top - 1, (1 << (8 * hl - 1)) - 1, 1 << (8 * hl - 1)] + sq
+                h1 = rng.choice(pool) % top
+                h2 = rng.choice(pool + [rng.getrandbits(8 * hl)]) % top
+                b = h1.to_bytes(hl, "little") + h2.to_bytes(hl, "little")
+                P = g.Q.one_way_map(b)
+                out.append(case1(T + "one_way_map " + b.hex(), "OK " + g.enc(P), ["map", g.name + ":map", "map:directed-halves"]))
+            elif g.name == "ristretto255":
                 b = bytes(rng.getrandbits(8) for _ in range(64)) if rng.randrange(4) else rng.choice([bytes(64), b"\xff" * 64])
                 P = g.Q.one_way_map(b)
                 out.append(case1(T + "one_way_map " + b.hex(), "OK " + g.enc(P), ["map", "ristretto255:map"]))
@@ -308,7 +332,7 @@ def main(argv):
             req += [c + ":decode:accept", c + ":decode:reject", c + ":reps", c + ":batch"]
         req += ["decode:x=0-with-sign-bit", "decode:y>=p", "decode:unused-bits-set", "decode:negated-s", "decode:negated-u", "decode:hybrid-06-07",
                 "decode:all-zero-fixed-length", "weier:0x00-infinity-accepted", "decode:field-top-bit-set", "decode:length+-1", "ristretto255:map",
-                "decaf448:map", "jq255e:map", "jq255s:map", "gls254:map", "map:hashed"]
+                "decaf448:map", "jq255e:map", "jq255s:map", "gls254:map", "map:hashed", "map:directed-halves"]
         rep.require(*req)
     except Inconclusive as e:
         rep.incon.append(str(e))
